@@ -100,6 +100,7 @@ struct IcvState
 {
     int nthreads_var, thread_limit;
     bool dyn;
+    int run_sched_kind = 0, run_sched_chunk = 0;
 };
 IcvState icv_save();
 void icv_restore(const IcvState &s);
